@@ -112,7 +112,7 @@ def edge_truth(t, succ):
 def liveness_keeps(prog, fn):
     """[(subject idx Val, accessor call Val or None, keep successor block, switch block, time Val)] for every
     liveness branch of fn whose one side is exactly the family's live set"""
-    key = ('keeps', fn.path)
+    key = ('keeps', fn.path, id(fn.info.get('mir')))      # a spliced variant of a function (SEGFLOW, UNCHECKED) has its own MIR
     if key in prog._summ_cache:
         return prog._summ_cache[key]
     b = fn.body
@@ -240,7 +240,7 @@ def mutation_between(prog, fn, def_block, use_block, avoid_header=None, redef_bl
 
 def gate_summary(prog, fn):
     """{'time_param': k} if fn is an expiry gate, else None (with reasons)"""
-    key = ('gate', fn.path)
+    key = ('gate', fn.path, id(fn.info.get('mir')))
     if key in prog._summ_cache:
         return prog._summ_cache[key]
     res = None
